@@ -233,6 +233,23 @@ def run(ctx):
                 bad("fitted initial pressure (or its declared lower limit) is below the highest frac-face pressure of the history",
                     dict(days=nd, spike_rows=len(spike_at), highest_fracface_pressure=float(pres.max()), p_initial_guess=guess, window=window),
                     dict(p_initial=pfit, declared_minimum=lo_decl))
+        # an initial-pressure guess ABOVE the stated maximum (two arguments that are each fine alone): the stated maximum still binds
+        cap = float(pres.max()) + float(rng.uniform(300, 2500))
+        guess_hi = cap + float(rng.uniform(200, 1500))
+        with warnings.catch_warnings():
+            warnings.simplefilter("ignore")
+            try:
+                result = fpm.fit_production_pressure(prod, pvt, guess_hi, filter_window_size=None, pressure_imax=cap, inplace_max=1e6,
+                                                     filter_zero_prod_days=bool(k % 2), n_iter=int(rng.choice([1, 10, 40])))
+            except Exception as e:  # noqa: BLE001
+                result = None
+                bad("fit_production_pressure raises when the initial-pressure guess lies above the stated maximum", dict(days=nd, guess=guess_hi, pressure_imax=cap), repr(e)[:200])
+        if result is not None:
+            ev += 1
+            pfit, hi_decl = float(result.params["p_initial"].value), float(result.params["p_initial"].max)
+            if pfit > cap * (1 + 1e-12) or hi_decl > cap * (1 + 1e-12):
+                bad("fitted initial pressure (or its declared upper limit) exceeds the stated maximum when the guess lies above it",
+                    dict(days=nd, highest_fracface_pressure=float(pres.max()), p_initial_guess=guess_hi, pressure_imax=cap), dict(p_initial=pfit, declared_maximum=hi_decl))
     ctx.cov.update(evaluations=ev, distinct_nontrivial=n + nfit, traces_validated_against_impl=len(items),
                    rule="random (tau, M, p_initial) and monotone / arbitrary frac-face schedules below p_initial for the objective (compared with the "
                         "float instance of the Coq objective and with a direct call of the library simulation); production tables with zero-rate days "
